@@ -104,6 +104,49 @@ BOX_FACES = [(0, 2, 1), (1, 2, 3), (4, 5, 6), (5, 7, 6), (0, 1, 4), (1, 5, 4), (
 TRI_BASED = {"Tetrahedron", "TriangularMesh", "Triangle"}
 
 
+def union_box_mesh(verts):
+    """closed, outward oriented triangle mesh of the union of the lattice boxes [verts[2i], verts[2i+1]] (non-convex orthogonal bodies).
+    The union is cut by all box planes into grid cells; every cell face with free space behind it gives two triangles."""
+    boxes = [(np.array(verts[i]), np.array(verts[i + 1])) for i in range(0, len(verts), 2)]
+    cuts = [sorted({int(b[j][k]) for b in boxes for j in (0, 1)}) for k in range(3)]
+    n = [len(c) - 1 for c in cuts]
+    occ = np.zeros(n, dtype=bool)
+    for i in range(n[0]):
+        for j in range(n[1]):
+            for k in range(n[2]):
+                lo = np.array([cuts[0][i], cuts[1][j], cuts[2][k]])
+                hi = np.array([cuts[0][i + 1], cuts[1][j + 1], cuts[2][k + 1]])
+                occ[i, j, k] = any((b[0] <= lo).all() and (hi <= b[1]).all() for b in boxes)
+    vid, V, F = {}, [], []
+
+    def vert(p):
+        if p not in vid:
+            vid[p] = len(V)
+            V.append(p)
+        return vid[p]
+
+    for idx in np.argwhere(occ):
+        lo = [cuts[k][idx[k]] for k in range(3)]
+        hi = [cuts[k][idx[k] + 1] for k in range(3)]
+        for ax in range(3):
+            a1, a2 = (ax + 1) % 3, (ax + 2) % 3
+            for side in (0, 1):
+                nb = idx.copy()
+                nb[ax] += 1 if side else -1
+                if 0 <= nb[ax] < n[ax] and occ[tuple(nb)]:
+                    continue
+                c = [0, 0, 0]
+                c[ax] = hi[ax] if side else lo[ax]
+                q = []
+                for u, w in ((lo[a1], lo[a2]), (hi[a1], lo[a2]), (hi[a1], hi[a2]), (lo[a1], hi[a2])):  # counter-clockwise about +ax
+                    c[a1], c[a2] = u, w
+                    q.append(vert(tuple(c)))
+                if not side:
+                    q = q[::-1]
+                F += [(q[0], q[1], q[2]), (q[0], q[2], q[3])]
+    return np.array(V, dtype=float), np.array(F, dtype=int)
+
+
 def build_source(magpy, s, kap):
     lam = kap.lam
     kw = {"position": kap.pos(s["p"]), "orientation": kap.rot(s["R"])}
@@ -120,6 +163,9 @@ def build_source(magpy, s, kap):
         return magpy.magnet.Tetrahedron(polarization=exc, vertices=lam * np.array(s["verts"], dtype=float), **kw)
     if cls == "Triangle":
         return magpy.misc.Triangle(polarization=exc, vertices=lam * np.array(s["verts"], dtype=float), **kw)
+    if cls == "TriangularMesh" and not dim:
+        v, f = union_box_mesh(s["verts"])
+        return magpy.magnet.TriangularMesh(polarization=exc, vertices=lam * v, faces=f, **kw)
     if cls == "TriangularMesh":
         h = np.array(dim, dtype=float) / 2
         v = np.array([[sx * h[0], sy * h[1], sz * h[2]] for sx in (-1, 1) for sy in (-1, 1) for sz in (-1, 1)]) * lam
